@@ -501,6 +501,101 @@ async fn long_history_case(rep: &mut Report, cx: &mut Ctx<'_>, case_seed: u64, p
     rep.nontrivial(&("long-history", case_seed));
 }
 
+/// Directed window, multi-partition form: partition P has a history longer than one history batch with the watermark
+/// in the middle of its first batch, partition Q a fully confirmed history of 60-120 commits; one Partitions
+/// subscription reads both from 0. Hook H5 holds it at the top of its second batch (of either partition, the choice
+/// is the subscription's own random one) while the harness confirms the rest of P.
+async fn long_partitions_history_case(rep: &mut Report, cx: &mut Ctx<'_>, case_seed: u64, pid: Pid, pid_q: Pid) {
+    let mut rng = Rng::new(case_seed);
+    rep.evaluations += 1;
+    let (pk, _) = *cx.keys.iter().find(|k| k.1 == pid).unwrap();
+    let n = 110 + rng.usize_below(60);
+    let hole = 20 + rng.usize_below(25); // first unconfirmed commit, inside the first batch
+    let mut tis = Vec::new();
+    for _ in 0..n {
+        // single stream, single-event transactions
+        let hash = hash_of_key(pk);
+        let next = cx.world.lock().unwrap().model.partition_seq(pid).map(|s| s + 1).unwrap_or(0);
+        let t = MTxn { partition_key: pk, partition_id: pid, txn_id: cx.ids.txn_id(&mut rng, true), events: vec![MNewEvent { event_id: cx.ids.with_hash(&mut rng, hash), stream: format!("long-{pid}"), expected: Exp::Any, name: "E".into(), timestamp: 1_700_000_000_000_000_000 + next, metadata: vec![], payload: rng.bytes(8) }], expected_seq: if next == 0 { Exp::Empty } else { Exp::Exact(next - 1) }, confirmation_count: 0 };
+        {
+            let mut w = cx.world.lock().unwrap();
+            w.model.apply(&t).unwrap();
+            let ti = w.model.txns.len() - 1;
+            w.confirmed_txn.insert(ti, false);
+            tis.push(ti);
+        }
+        if cx.node.ask(ReplicateWrite { coordinator_ref: cx.coord.clone(), coordinator_alive_since: u64::MAX, transaction: to_store_txn(&t).unwrap() }).await.is_err() { rep.inconclusive("long history: ReplicateWrite failed"); return; }
+    }
+    for ti in &tis[..hole] { if cx.confirm(*ti).await.is_err() { rep.inconclusive("confirm failed"); return; } }
+    // partition Q: fully confirmed
+    let (pkq, _) = *cx.keys.iter().find(|k| k.1 == pid_q).unwrap();
+    let nq = 60 + rng.usize_below(60);
+    for _ in 0..nq {
+        let hash = hash_of_key(pkq);
+        let next = cx.world.lock().unwrap().model.partition_seq(pid_q).map(|s| s + 1).unwrap_or(0);
+        let t = MTxn { partition_key: pkq, partition_id: pid_q, txn_id: cx.ids.txn_id(&mut rng, true), events: vec![MNewEvent { event_id: cx.ids.with_hash(&mut rng, hash), stream: format!("longq-{pid_q}"), expected: Exp::Any, name: "E".into(), timestamp: 1_700_000_000_000_000_000 + next, metadata: vec![], payload: rng.bytes(8) }], expected_seq: if next == 0 { Exp::Empty } else { Exp::Exact(next - 1) }, confirmation_count: 0 };
+        let ti = {
+            let mut w = cx.world.lock().unwrap();
+            w.model.apply(&t).unwrap();
+            let ti = w.model.txns.len() - 1;
+            w.confirmed_txn.insert(ti, false);
+            ti
+        };
+        if cx.node.ask(ReplicateWrite { coordinator_ref: cx.coord.clone(), coordinator_alive_since: u64::MAX, transaction: to_store_txn(&t).unwrap() }).await.is_err() { rep.inconclusive("long history: ReplicateWrite failed"); return; }
+        if cx.confirm(ti).await.is_err() { rep.inconclusive("confirm failed"); return; }
+    }
+    let n_total = n + nq;
+    tokio::time::sleep(Duration::from_millis(50)).await;
+    let spec = Arc::new(SubSpec { kind: Kind::Partitions(vec![pid, pid_q], [(pid, 0u64), (pid_q, 0u64)].into_iter().collect(), None), window: 1000, stall_ms: 0 });
+    let st = Arc::new(Mutex::new(SubState::default()));
+    let (ack_tx, ack_rx) = watch::channel(None);
+    let (tx, rx) = mpsc::unbounded_channel();
+    crate::hooks::arm("sub.history.batch", None);
+    if cx.node.ask(Subscribe { subscription_id: Uuid::from_u128(case_seed as u128), matcher: matcher_of(&spec.kind), last_ack_rx: ack_rx, update_tx: tx, window_size: 1000 }).await.is_err() { rep.inconclusive("Subscribe failed"); return; }
+    let h = tokio::spawn(subscriber(cx.world.clone(), spec.clone(), st.clone(), rx, ack_tx, case_seed ^ 5, cx.rf));
+    // first batch: let it run
+    let mut windows = 0;
+    if crate::hooks::wait_held("sub.history.batch", Duration::from_secs(10)) {
+        crate::hooks::step("sub.history.batch");
+        // second batch reached: the subscription has judged the first batch against the old watermark
+        let t0 = Instant::now();
+        while crate::hooks::hits("sub.history.batch") < 2 && t0.elapsed() < Duration::from_secs(2) { tokio::time::sleep(Duration::from_millis(2)).await; }
+        if crate::hooks::hits("sub.history.batch") >= 2 && crate::hooks::wait_held("sub.history.batch", Duration::from_secs(5)) {
+            windows = 1;
+            // the watermark moves past everything while the subscription sits between two batches
+            for ti in &tis[hole..] { let _ = cx.confirm(*ti).await; }
+            tokio::time::sleep(Duration::from_millis(50)).await;
+        }
+    }
+    crate::hooks::disarm_all();
+    // (a subscription that stops reading history at the first unreadable commit never reaches a second batch:
+    // then the remaining events arrive through live delivery, which is checked just the same)
+    if crate::hooks::hits("sub.history.batch") == 0 { rep.inconclusive("hook sub.history.batch was never reached"); }
+    rep.count("long_partitions_history_cases", 1);
+    rep.count("watermark_moved_between_partitions_history_batches", windows);
+    if windows == 0 { for ti in &tis[hole..] { let _ = cx.confirm(*ti).await; } }
+    // quiescence
+    let t0 = Instant::now();
+    loop {
+        tokio::time::sleep(Duration::from_millis(50)).await;
+        let s = st.lock().unwrap();
+        let done = s.delivered.len() >= n_total;
+        let idle = s.last_delivery.map(|t| t.elapsed() > Duration::from_secs(3)).unwrap_or(t0.elapsed() > Duration::from_secs(3));
+        if done || idle || !s.violations.is_empty() || t0.elapsed() > Duration::from_secs(30) { break; }
+    }
+    h.abort();
+    let s = st.lock().unwrap();
+    let witness = json!({"case_seed": case_seed, "rf": cx.rf, "mode": "long-partitions-history", "partition_q": pid_q, "partition": pid, "commits": n, "first_unconfirmed_commit": hole, "delivered": s.count});
+    for (sig, what) in &s.violations {
+        rep.violation(&format!("{sig}:partitions:watermark-moved-between-history-batches"), format!("{what} [Partitions subscription over P (history of {n} commits, watermark at {hole} when subscribing) and Q ({nq} confirmed commits); the rest of P confirmed while the subscription was held at the top of its second history batch]"), witness.clone());
+    }
+    if s.violations.is_empty() && s.delivered.len() < n_total {
+        rep.violation("C09:confirmed-event-never-delivered:partitions:watermark-moved-between-history-batches", format!("{} of {n_total} confirmed events delivered, nothing arrived for 3 s", s.delivered.len()), witness.clone());
+    }
+    rep.count("deliveries_checked", s.count);
+    rep.nontrivial(&("long-partitions-history", case_seed));
+}
+
 pub fn run(args: &Args, rep: &mut Report) {
     let rt = runtime(4);
     let thorough = args.tier.is_thorough();
@@ -523,6 +618,10 @@ pub fn run(args: &Args, rep: &mut Report) {
         let mut cx = Ctx { node: &node, rf, keys: &keys, ids: Ids::new(), world, coord };
         if let Some(w) = replay {
             let w = &w["witness"];
+            if w["mode"].as_str() == Some("long-partitions-history") {
+                long_partitions_history_case(rep, &mut cx, w["case_seed"].as_u64().unwrap(), 0, 1).await;
+                return;
+            }
             if w["mode"].as_str() == Some("long-history") {
                 long_history_case(rep, &mut cx, w["case_seed"].as_u64().unwrap(), 0).await;
                 return;
@@ -538,6 +637,10 @@ pub fn run(args: &Args, rep: &mut Report) {
             for k in 0..(if thorough { 12 } else { 3 }) {
                 long_history_case(rep, &mut cx, args.case_seed(900_000 + k), next_part).await;
                 next_part += 1;
+            }
+            for k in 0..(if thorough { 12 } else { 3 }) {
+                long_partitions_history_case(rep, &mut cx, args.case_seed(910_000 + k), next_part, next_part + 1).await;
+                next_part += 2;
             }
         }
         while args.time_left() && next_part + 4 < partitions {
